@@ -131,7 +131,7 @@ pub fn race_block() -> impl Strategy<Value = Vec<GenStep>> {
 
 /// many requests back to back, each inside the 100 ms window of the previous reply
 pub fn burst_block() -> impl Strategy<Value = Vec<GenStep>> {
-    (prop_oneof![Just(5usize), Just(31), Just(33), Just(34), Just(35), Just(40), Just(70)], 0..3u8, prop::collection::vec(reply_spec(), 1..3usize), prop_oneof![Just(0u64), Just(50), Just(99)]).prop_map(
+    (prop_oneof![4 => Just(5usize), 4 => Just(31), 4 => Just(33), 4 => Just(34), 4 => Just(35), 4 => Just(40), 4 => Just(70), 1 => Just(129), 1 => Just(257), 1 => Just(300)], 0..3u8, prop::collection::vec(reply_spec(), 1..3usize), prop_oneof![Just(0u64), Just(50), Just(99)]).prop_map(
         |(n, caller, replies, gap)| {
             let mut v = Vec::new();
             for _ in 0..n {
